@@ -365,7 +365,7 @@ func scnDirs(rep *Report, rng *Rng, tier string, outdir string) {
 			in.Links = append(in.Links, l)
 		}
 		if i < n {
-			in.Keys = append(append([]string{}, alphabet...), "zz")
+			in.Keys = append(append([]string{}, alphabet...), "zz", "Links", "Data", "Hash")
 		}
 		obs, fails, ok := runDirsCase(in)
 		for _, f := range fails {
